@@ -22,6 +22,11 @@
 #include <opm/input/eclipse/Deck/DeckItem.hpp>
 #include <opm/input/eclipse/Deck/UDAValue.hpp>
 #include <opm/input/eclipse/Utility/Typetools.hpp>
+#include <opm/json/JsonObject.hpp>
+
+#include <sys/resource.h>
+#include <sys/wait.h>
+#include <unistd.h>
 
 #include <algorithm>
 #include <cctype>
@@ -434,6 +439,7 @@ struct Gen {
     Reporter& rep;
     std::map<std::string, int> dims;                    // "KW.ITEM" -> value put into the deck
     std::set<std::string> present;                      // keywords emitted so far
+    bool spillAll = false;                              // a pending run of defaults may run over into an item of size ALL
     const std::map<std::string, std::set<std::string>>& sizing;   // keyword -> items that size other keywords
     static const std::map<std::string, std::set<std::string>>& sizingTable() {
         static std::map<std::string, std::set<std::string>> t;
@@ -518,8 +524,14 @@ struct Gen {
             const ParserItem& it = pr.get(i);
             const bool first = toks.empty() && pending == 0;
             if (it.sizeType() == ParserItem::item_size::ALL) {
-                flush();
                 int m = bigData ? rng.range(0, 40) : rng.range(0, 9);
+                // a run of defaults that begins in the scalar items and runs over into the ALL item as ONE token
+                // (scan_item pushes the remainder `1*` x (n-1) back; the ALL item takes what is left of it)
+                if (spillAll && pending > 0 && it.dataType() != type_tag::raw_string && rng.coin(1, 2)) {
+                    pending += rng.range(1, 4); rep.count("gen.tok.default_run_into_all");
+                    if (rng.coin(1, 2)) { m = 0; rep.count("gen.tok.default_run_into_all_ends_record"); }
+                }
+                flush();
                 while (m > 0) {
                     int c = (int) rng.below(20);
                     if (c < 12) {
@@ -789,8 +801,9 @@ const std::vector<std::string>& pool() {
 }
 
 // a random deck: header (sizing keywords) followed by a random selection
-std::vector<Block> genDeck(vh::Rng& rng, Reporter& rep, int nKw, bool allowFault, std::string& fault) {
+std::vector<Block> genDeck(vh::Rng& rng, Reporter& rep, int nKw, bool allowFault, std::string& fault, bool spillAll = false) {
     Gen g(rng, rep);
+    g.spillAll = spillAll;
     std::vector<Block> out;
     g.genKeyword("RUNSPEC", out);
     if (rng.coin(2, 3)) g.genKeyword(rng.pick(std::vector<std::string>{ "METRIC", "FIELD", "LAB" }), out);
@@ -1626,6 +1639,331 @@ const std::vector<int>& shippedKinds() {
     return k;
 }
 
+// ---------------------------------------------------------------------------
+// Comparison of two complete layouts (texts) of the same deck
+// ---------------------------------------------------------------------------
+struct LayoutCmp { bool fail = false, aOk = false, bOk = false; std::string cls, detail; };
+
+LayoutCmp compareOutcomes(Outcome& oa, Outcome& ob) {
+    LayoutCmp r; r.aOk = oa.ok; r.bOk = ob.ok;
+    if (oa.ok != ob.ok) { r.fail = true; r.cls = "outcome"; r.detail = std::string("a=") + (oa.ok ? "ok" : "err") + " b=" + (ob.ok ? "ok" : "err"); return r; }
+    if (!oa.ok) return r;
+    if (oa.guard != ob.guard) { r.fail = true; r.cls = "guard"; r.detail = "error guard differs"; return r; }
+    Diff df = diffDeck(canonDeck(*oa.deck), canonDeck(*ob.deck), false);
+    if (df.differ) { r.fail = true; r.cls = "differs." + df.what; r.detail = "keyword=" + df.kwName + " where={" + df.where + "}"; }
+    return r;
+}
+
+// ---------------------------------------------------------------------------
+// C01 probe "tailstar": the LAST token of a record is a valueless repeat count n*.
+//  (1) records <scalar items> <item of size ALL>: the run of defaults begins in the scalar
+//      items and runs over into the ALL item (n = open scalar items + e, e = 1, 2, 3, 7), for
+//      every number of explicit scalar values, written as ONE token, written out as 1* 1* ...,
+//      and as two tokens (scalar part, ALL part); e = 0 (control): against the record ended early;
+//  (2) records of scalar items only: the run is longer than the record (x = 1, 2, 9 too many):
+//      all layouts must be refused alike; x = 0 (control) accepted alike.
+// Every keyword of the Parser (plus user defined JSON keywords) with such a record, inside a
+// generated context (dimension keywords, required keywords).
+// ---------------------------------------------------------------------------
+int spillScalars(const ParserRecord& pr) {        // scalar items in front of a final ALL item; -1: other shape
+    const size_t n = pr.size();
+    if (n < 2) return -1;
+    for (size_t i = 0; i + 1 < n; ++i) if (pr.get(i).sizeType() != ParserItem::item_size::SINGLE || pr.get(i).dataType() == type_tag::raw_string) return -1;
+    if (pr.get(n - 1).sizeType() != ParserItem::item_size::ALL || pr.get(n - 1).dataType() == type_tag::raw_string) return -1;
+    return (int) n - 1;
+}
+bool allScalar(const ParserRecord& pr) {
+    if (pr.size() == 0) return false;
+    for (const auto& it : pr) if (it.sizeType() != ParserItem::item_size::SINGLE || it.dataType() == type_tag::raw_string) return false;
+    return true;
+}
+
+const char* kJsonSpill[] = {
+    R"({"name":"VTSPILLA","sections":[],"size":1,"items":[{"name":"A","value_type":"INT","default":11},{"name":"B","value_type":"INT","default":22},{"name":"REST","value_type":"DOUBLE","default":0.5,"size_type":"ALL"}]})",
+    R"({"name":"VTSPILLB","sections":[],"items":[{"name":"NAME","value_type":"STRING"},{"name":"MODE","value_type":"STRING","default":"NEW"},{"name":"REST","value_type":"STRING","size_type":"ALL"}]})",
+    R"({"name":"VTSPILLC","sections":[],"size":2,"items":[{"name":"I","value_type":"INT"},{"name":"X","value_type":"DOUBLE","default":1.5,"dimension":"Length"},{"name":"S","value_type":"STRING","default":"YES"},{"name":"U","value_type":"UDA","default":0.0},{"name":"REST","value_type":"INT","size_type":"ALL"}]})",
+    R"({"name":"VTSPILLD","sections":[],"size":1,"items":[{"name":"A","value_type":"DOUBLE"},{"name":"DATA","value_type":"DOUBLE","size_type":"ALL","dimension":"Pressure"}]})",
+    R"({"name":"VTSCALAR","sections":[],"items":[{"name":"A","value_type":"INT","default":1},{"name":"B","value_type":"DOUBLE"},{"name":"C","value_type":"STRING","default":"X"},{"name":"D","value_type":"INT"}]})",
+};
+
+void tailStarProbe(Reporter& rep, Env& env) {
+    // the shipped keywords plus user defined ones
+    Parser local;
+    for (const char* js : kJsonSpill) {
+        try { local.addParserKeyword(Json::JsonObject(std::string(js))); rep.count("tailstar.json_keywords"); }
+        catch (const std::exception&) { rep.count("tailstar.json_keyword_rejected"); }
+    }
+    struct Swap { const Parser* saved; Swap(const Parser* p) : saved(gParser) { gParser = p; } ~Swap() { gParser = saved; } } swap(&local);
+
+    std::vector<std::string> names = P().getAllDeckNames();
+    std::sort(names.begin(), names.end());
+    std::set<const ParserKeyword*> seen;
+    size_t ordinal = 0;
+    for (const auto& name : names) {
+        const ParserKeyword* pkp = nullptr;
+        try { pkp = &P().getParserKeywordFromDeckName(name); } catch (...) { continue; }
+        if (!seen.insert(pkp).second) continue;
+        const ParserKeyword& pk = *pkp;
+        if (pk.rawStringKeyword() || pk.isCodeKeyword() || name == "TITLE") continue;
+        // keywords the keyword loop acts upon (files are opened, the process may be ended on a missing file)
+        static const std::set<std::string> acts = { "INCLUDE", "IMPORT", "PATHS", "PYINPUT", "PYACTION", "END", "ENDINC", "SKIP", "SKIP100", "SKIP300", "ENDSKIP" };
+        if (acts.count(name)) continue;
+        bool anySpill = false, anyScalar = false;
+        for (const auto& pr : pk) { if (spillScalars(pr) >= 0) anySpill = true; if (allScalar(pr)) anyScalar = true; }
+        if (!anySpill && !anyScalar) continue;
+        ++ordinal;
+        // scalar-only records are the overwhelming majority: the quick tier takes every 6th keyword (offset by the seed)
+        if (!anySpill && !env.thorough && (ordinal + env.seed) % 6 != 0) continue;
+        vh::Rng rng(caseSeed(env.seed ^ 0x7461696c73746172ull, ordinal));
+        Gen g(rng, rep);
+        std::vector<Block> blocks;
+        g.genKeyword("RUNSPEC", blocks); g.genKeyword("TABDIMS", blocks); g.genKeyword("EQLDIMS", blocks);
+        if (pk.getSizeType() == OTHER_KEYWORD_IN_DECK) { const std::string sk = pk.getKeywordSize().keyword(); if (!g.present.count(sk)) g.genKeyword(sk, blocks); }
+        for (const auto& k : pk.requiredKeywords()) if (!g.present.count(k)) g.genKeyword(k, blocks);
+        if (g.present.count(name) || !g.genKeyword(name, blocks)) { rep.count("tailstar.keyword_not_generated"); continue; }
+        Block& tb = blocks.back();
+        if (tb.name != name) { rep.count("tailstar.keyword_not_generated"); continue; }
+        std::vector<size_t> sites;
+        for (size_t li = 0; li < tb.lines.size(); ++li) { const Line& l = tb.lines[li]; if (l.kind == 'd' && l.prec && (spillScalars(*l.prec) >= 0 || allScalar(*l.prec))) sites.push_back(li); }
+        if (sites.empty()) { rep.count("tailstar.no_record_generated"); continue; }
+        if (sites.size() > 2) { size_t a = sites.front(), b = sites.back(); sites = { a, b }; }
+        rep.count(anySpill ? "tailstar.keywords_with_all_item" : "tailstar.keywords_scalar_only");
+        auto render = [&](size_t li, const std::vector<std::string>& toks) {
+            std::vector<Block> copy = blocks;
+            const Line& o = blocks.back().lines[li];
+            copy.back().lines[li] = g.recordLine(toks, o.rec, o.prec);
+            RenderCtx rc; std::string text; renderBlocks(copy, text, rc);
+            return text;
+        };
+        auto stars = [](long n) { return std::to_string(n) + "*"; };
+        for (size_t li : sites) {
+            const ParserRecord& pr = *tb.lines[li].prec;
+            const int s = spillScalars(pr);
+            const bool spill = s >= 0;
+            const long N = spill ? s : (long) pr.size();      // scalar items
+            std::set<long> js = { 0, N, (long) rng.range(0, (int) N) };
+            if (N >= 1) js.insert(N - 1);
+            for (long j : js) {
+                std::vector<std::string> vals;
+                for (long i = 0; i < j; ++i) vals.push_back(g.genValue(pr.get((size_t) i), true));
+                const long open = N - j;
+                for (long e : { 0L, 1L, 2L, 3L, 7L + (long) rng.below(3) }) {
+                    if (open + e == 0) continue;
+                    // layouts: one token | written out | scalar part and rest as two tokens | record ended early (e = 0)
+                    std::vector<std::pair<std::string, std::vector<std::string>>> lay;
+                    { auto t = vals; t.push_back(stars(open + e)); lay.emplace_back("one_token", t); }
+                    { auto t = vals; for (long k = 0; k < open + e; ++k) t.push_back("1*"); lay.emplace_back("written_out", t); }
+                    if (open > 0 && e > 0) { auto t = vals; t.push_back(stars(open)); t.push_back(stars(e)); lay.emplace_back("two_tokens", t); }
+                    if (e > 1) { auto t = vals; for (long k = 0; k < open + 1; ++k) t.push_back("1*"); t.push_back(stars(e - 1)); lay.emplace_back("written_then_token", t); }
+                    if (e == 0 && !vals.empty()) lay.emplace_back("ended_early", vals);
+                    const std::string ref = render(li, lay[1].second);
+                    Outcome oref = parseText(ref);
+                    const std::string kind = spill ? (e == 0 ? "run_to_all_item_control" : "run_into_all_item") : (e == 0 ? "run_to_record_end_control" : "run_past_record_end");
+                    for (size_t q = 0; q < lay.size(); ++q) {
+                        if (q == 1) continue;
+                        const std::string txt = render(li, lay[q].second);
+                        Outcome o = parseText(txt);
+                        LayoutCmp c = compareOutcomes(o, oref);
+                        rep.count("tailstar." + kind + (c.aOk ? (c.bOk ? ".both_ok" : ".ok_err") : (c.bOk ? ".err_ok" : ".both_err")));
+                        if (!c.fail) { rep.ok(); continue; }
+                        std::string rec; for (const auto& t : lay[q].second) rec += t + " ";
+                        rep.fail("C01.relayout.tailstar." + kind + "." + lay[q].first + "." + c.cls + "." + classOf(pk, name),
+                                 "seed=" + std::to_string(env.seed) + " keyword=" + name + " record=" + std::to_string(tb.lines[li].rec) + " scalar_items=" + std::to_string(N) + " explicit=" + std::to_string(j) +
+                                 " run=" + std::to_string(open + e) + " a={" + rec + "/} b=written_out " + c.detail + " a_hex=" + hexTrunc(txt) + " b_hex=" + hexTrunc(ref));
+                    }
+                    // the same with a repeated VALUE as the last token, n*v against v written n times, where one
+                    // literal suits every item the run covers
+                    {
+                        bool allNum = true, allStr = true;
+                        const long upto = spill ? N + 1 : N;
+                        for (long i = j; i < upto; ++i) {
+                            const auto ty = pr.get((size_t) i).dataType();
+                            if (ty == type_tag::string) allNum = false;
+                            else if (ty == type_tag::integer || ty == type_tag::fdouble || ty == type_tag::uda) allStr = false;
+                            else allNum = allStr = false;
+                        }
+                        const std::string lit = j >= upto ? "" : allNum ? "3" : allStr ? "'S'" : "";
+                        if (!lit.empty()) {
+                            auto ta = vals; ta.push_back(std::to_string(open + e) + "*" + lit);
+                            auto tb2 = vals; for (long k = 0; k < open + e; ++k) tb2.push_back(lit);
+                            const std::string txa = render(li, ta), txb = render(li, tb2);
+                            Outcome oa = parseText(txa), ob = parseText(txb);
+                            LayoutCmp c = compareOutcomes(oa, ob);
+                            const std::string vkind = spill ? (e == 0 ? "value_run_to_all_item_control" : "value_run_into_all_item") : (e == 0 ? "value_run_to_record_end_control" : "value_run_past_record_end");
+                            rep.count("tailstar." + vkind + (c.aOk ? (c.bOk ? ".both_ok" : ".ok_err") : (c.bOk ? ".err_ok" : ".both_err")));
+                            if (!c.fail) rep.ok();
+                            else rep.fail("C01.relayout.tailstar." + vkind + ".one_token." + c.cls + "." + classOf(pk, name),
+                                          "seed=" + std::to_string(env.seed) + " keyword=" + name + " record=" + std::to_string(tb.lines[li].rec) + " scalar_items=" + std::to_string(N) + " explicit=" + std::to_string(j) +
+                                          " a={... " + ta.back() + " /} b=written_out " + c.detail + " a_hex=" + hexTrunc(txa) + " b_hex=" + hexTrunc(txb));
+                        }
+                    }
+                }
+            }
+        }
+    }
+}
+
+// ---------------------------------------------------------------------------
+// C01 probe "include": one deck text against layouts of it over INCLUDE files on disk in which
+// the SAME file is read more than once - closed by its end, by ENDINC, by ENDINC with text
+// behind it (never read) -, from the same and from different parents, through nested chains,
+// under different spellings of its path (relative, ./, absolute, dir/../, PATHS aliases), and
+// files of the same name in different directories.  Genuinely recursive chains have no
+// one-piece text: every spelling of them must be refused (run in a child process with a
+// memory and time limit: without the refusal the parser reads for ever).
+// ---------------------------------------------------------------------------
+struct IncCase {
+    std::string id;
+    std::string root;                                              // text of the root file; @DIR@ = directory of the case
+    std::vector<std::pair<std::string, std::string>> files;       // relative name -> text
+    std::string ref;                                               // the one-piece text; empty: recursive, must be refused
+};
+
+std::string replaceAllStr(std::string s, const std::string& a, const std::string& b) {
+    for (size_t p = 0; (p = s.find(a, p)) != std::string::npos; p += b.size()) s.replace(p, a.size(), b);
+    return s;
+}
+
+// exit status of the child: 0 parsed, 1 refused, anything else: killed / limit
+int parseInChild(const std::string& path) {
+    std::cout.flush(); std::cerr.flush();
+    pid_t pid = fork();
+    if (pid < 0) return 99;
+    if (pid == 0) {
+        struct rlimit rl; rl.rlim_cur = rl.rlim_max = (rlim_t) 3 << 30; setrlimit(RLIMIT_AS, &rl);
+        rl.rlim_cur = rl.rlim_max = 4; setrlimit(RLIMIT_CPU, &rl);
+        int code = 1;
+        ParseContext ctx; ErrorGuard eg;
+        try { Deck d = P().parseFile(path, ctx, eg); code = 0; }
+        catch (const std::bad_alloc&) { code = 3; }          // memory used up is not a refusal
+        catch (const std::exception&) { code = 1; }
+        catch (...) { code = 1; }
+        _exit(code);
+    }
+    int st = 0;
+    if (waitpid(pid, &st, 0) < 0) return 98;
+    if (WIFEXITED(st)) return WEXITSTATUS(st);
+    return 100 + (WIFSIGNALED(st) ? WTERMSIG(st) : 0);
+}
+
+void includeProbe(Reporter& rep, Env& env) {
+    const int nDecks = env.thorough ? 400 : 40;
+    int neverEnds = 0;      // each costs the CPU limit of the child: two are evidence enough
+    for (int c = 0; c < nDecks; ++c) {
+        if (!env.timeLeft(0.35)) { rep.count("include.stopped_by_budget"); break; }
+        vh::Rng rng(caseSeed(env.seed ^ 0x696e636c75646573ull, (uint64_t) c));
+        std::string fault;
+        std::vector<Block> blocks = genDeck(rng, rep, rng.range(5, 11), false, fault);
+        if (blocks.size() < 5) continue;
+        // five runs of whole keywords: H X M Y T (X and Y are the texts that go into the re-read files)
+        std::set<size_t> cuts;
+        while (cuts.size() < 4) cuts.insert((size_t) rng.range(1, (int) blocks.size() - 1));
+        std::vector<size_t> cv(cuts.begin(), cuts.end());
+        auto part = [&](size_t a, size_t b) { std::vector<Block> sub(blocks.begin() + (long) a, blocks.begin() + (long) b); RenderCtx rc; std::string t; renderBlocks(sub, t, rc); return t; };
+        const std::string H = part(0, cv[0]), X = part(cv[0], cv[1]), M = part(cv[1], cv[2]), Y = part(cv[2], cv[3]), T = part(cv[3], blocks.size());
+        const bool xTitleLast = blocks[cv[1] - 1].title, yTitleLast = blocks[cv[3] - 1].title, mTitleLast = blocks[cv[2] - 1].title;
+        rep.count("include.decks");
+
+        static const std::vector<std::string> junk = { "NOSUCHKW\n 1 2 /\n", "DIMENS\n 1 2 3 4 5 6 /\n", "INCLUDE\n 'does/not/exist.inc' /\n", "-- c\n\nthis is 'no deck\n", "END\n", "WELSPECS\n 'W' /\n" };
+        // closing of a file: 0 its end, 1 its end without a final newline, 2 ENDINC, 3 ENDINC + text never read
+        auto closed = [&](const std::string& body, int kind, bool titleLast) {
+            switch (kind) {
+            case 1: if (!titleLast && !body.empty() && body.back() == '\n' && !(body.size() >= 2 && body[body.size() - 2] == '\r')) return body.substr(0, body.size() - 1); return body;
+            case 2: return body + rng.pick(std::vector<std::string>{ "ENDINC\n", "ENDINC -- end of the file\n", "endinc\n", "  ENDINC  \n\n" });
+            case 3: return body + "ENDINC\n" + rng.pick(junk) + rng.pick(junk);
+            default: return body;
+            }
+        };
+        static const char* kindName[] = { "eof", "eof_no_newline", "endinc", "endinc_then_text" };
+        auto anyKind = [&]() { return (int) rng.below(4); };
+        // INCLUDE statement; the path is spelled in one of several ways that name the same file
+        auto inc = [&](const std::string& rel, int spelling = -1) {
+            if (spelling < 0) spelling = (int) rng.below(5);
+            std::string p;
+            switch (spelling) {
+            case 0: p = rel; break;
+            case 1: p = "./" + rel; break;
+            case 2: p = "@DIR@/" + rel; break;
+            case 3: p = "sub/../" + rel; break;
+            default: p = "@DIR@/sub/.././" + rel; break;
+            }
+            switch (rng.below(4)) {
+            case 0: return "INCLUDE\n '" + p + "' /\n";
+            case 1: return "include -- again\n   '" + p + "'   / text\n";
+            case 2: return "INCLUDE\n'" + p + "'\n/\n\n";
+            default: return "INCLUDE\n  '" + p + "' /\n";
+            }
+        };
+
+        std::vector<IncCase> cases;
+        for (int xk = 0; xk < 4; ++xk) {
+            const std::string x = closed(X, xk, xTitleLast);
+            const std::string kn = kindName[xk];
+            { IncCase k; k.id = "twice." + kn; k.root = H + inc("x.inc") + M + inc("x.inc") + T; k.files = { { "x.inc", x } }; k.ref = H + X + M + X + T; cases.push_back(k); }
+            { IncCase k; k.id = "thrice." + kn; k.root = H + inc("x.inc") + inc("x.inc") + M + inc("x.inc") + T; k.files = { { "x.inc", x } }; k.ref = H + X + X + M + X + T; cases.push_back(k); }
+            { IncCase k; k.id = "second_from_nested_file." + kn; k.root = H + inc("x.inc") + inc("p.inc") + T;
+              k.files = { { "x.inc", x }, { "p.inc", closed(M + inc("x.inc") + Y, anyKind(), yTitleLast) } }; k.ref = H + X + M + X + Y + T; cases.push_back(k); }
+            { IncCase k; k.id = "two_parents." + kn; k.root = H + inc("a.inc") + inc("b.inc") + T;
+              k.files = { { "x.inc", x }, { "a.inc", closed(inc("x.inc") + M, anyKind(), mTitleLast) }, { "b.inc", closed(Y + inc("x.inc"), rng.coin() ? 0 : 2, false) } };
+              k.ref = H + X + M + Y + X + T; cases.push_back(k); }
+            { IncCase k; k.id = "chain_reentered." + kn; k.root = H + inc("a.inc") + M + inc("b.inc") + T;
+              k.files = { { "x.inc", x }, { "a.inc", closed(inc("b.inc"), rng.coin() ? 0 : 2, false) }, { "b.inc", closed(Y + inc("x.inc"), rng.coin() ? 0 : 3, false) } };
+              k.ref = H + Y + X + M + Y + X + T; cases.push_back(k); }
+            { IncCase k; k.id = "paths_alias." + kn;
+              const std::string paths = "PATHS\n 'FRAG' '@DIR@/sub' /\n 'ALT' '@DIR@/sub/../sub' /\n/\n";
+              auto incp = [&](const std::string& p) { return "INCLUDE\n '" + p + "' /\n"; };
+              k.root = paths + H + incp("$FRAG/x.inc") + M + incp(rng.coin() ? "sub/x.inc" : "@DIR@/sub/x.inc") + incp("$ALT/x.inc") + T;
+              k.files = { { "sub/x.inc", x } }; k.ref = paths + H + X + M + X + X + T; cases.push_back(k); }
+            { IncCase k; k.id = "same_name_other_directory." + kn; k.root = H + inc("d1/f.inc", 0) + T;
+              k.files = { { "d1/f.inc", closed(X + inc("d2/f.inc", rng.coin() ? 0 : 2) + M, anyKind(), mTitleLast) }, { "d2/f.inc", closed(Y, xk, yTitleLast) } };
+              k.ref = H + X + Y + M + T; cases.push_back(k); }
+        }
+        // genuinely recursive: to be refused under every spelling
+        {
+            const int sp = (int) rng.below(5);
+            const std::string back = rng.pick(std::vector<std::string>{ "", "ENDINC\n", M });
+            { IncCase k; k.id = "recursive.self"; k.root = H + inc("x.inc") + T; k.files = { { "x.inc", X + inc("x.inc", sp) + back } }; cases.push_back(k); }
+            { IncCase k; k.id = "recursive.cycle_of_two"; k.root = H + inc("x.inc") + T; k.files = { { "x.inc", X + inc("y.inc") + back }, { "y.inc", Y + inc("x.inc", sp) } }; cases.push_back(k); }
+            { IncCase k; k.id = "recursive.after_legal_reading"; k.root = H + inc("y.inc") + inc("y.inc") + inc("x.inc") + T;
+              k.files = { { "y.inc", Y + "ENDINC\n" }, { "x.inc", X + inc("y.inc") + inc("p.inc") }, { "p.inc", M + inc("x.inc", sp) } }; cases.push_back(k); }
+            { IncCase k; k.id = "recursive.paths_alias"; k.root = "PATHS\n 'FRAG' '@DIR@/sub' /\n/\n" + H + "INCLUDE\n '$FRAG/x.inc' /\n" + T;
+              k.files = { { "sub/x.inc", X + (rng.coin() ? "INCLUDE\n '$FRAG/x.inc' /\n" : "INCLUDE\n 'sub/x.inc' /\n") + back } }; cases.push_back(k); }
+        }
+
+        std::map<std::string, std::pair<Outcome, bool>> refs;     // ref text -> outcome (parsed once)
+        for (size_t ci = 0; ci < cases.size(); ++ci) {
+            const IncCase& k = cases[ci];
+            const std::string dir = env.tmp + "/inc" + std::to_string(c) + "_" + std::to_string(ci);
+            std::error_code ec;
+            fs::create_directories(dir + "/sub", ec);
+            for (const auto& f : k.files) { fs::create_directories(fs::path(dir + "/" + f.first).parent_path(), ec); vh::spit(dir + "/" + f.first, replaceAllStr(f.second, "@DIR@", dir)); }
+            const std::string rootPath = dir + "/CASE.DATA";
+            vh::spit(rootPath, replaceAllStr(k.root, "@DIR@", dir));
+            auto filesHex = [&]() { std::string s = " root_hex=" + hexTrunc(k.root, 900); for (const auto& f : k.files) s += " file[" + f.first + "]_hex=" + hexTrunc(f.second, 500); return s; };
+            if (k.ref.empty()) {
+                if (neverEnds >= 2) { rep.count("include.recursive.not_run_after_never_ends"); fs::remove_all(dir, ec); continue; }
+                const int st = parseInChild(rootPath);
+                if (st != 0 && st != 1) ++neverEnds;
+                rep.count(std::string("include.recursive.") + (st == 1 ? "refused" : st == 0 ? "accepted" : "killed"));
+                if (st == 1) rep.ok();
+                else rep.fail("C01.relayout.include." + k.id + (st == 0 ? ".accepted" : ".never_ends"),
+                              "seed=" + std::to_string(env.seed) + " case=" + std::to_string(c) + " a file that includes itself has no one-piece text; child status=" + std::to_string(st) + filesHex());
+            } else {
+                const std::string refText = replaceAllStr(k.ref, "@DIR@", dir);
+                Outcome oref = parseText(refText);
+                Outcome o = parsePath(rootPath);
+                LayoutCmp cmp = compareOutcomes(o, oref);
+                rep.count("include.layouts");
+                rep.count(std::string("include.outcome.") + (cmp.aOk ? (cmp.bOk ? "both_ok" : "layout_ok_onepiece_err") : (cmp.bOk ? "layout_err_onepiece_ok" : "both_err")));
+                if (!cmp.fail) rep.ok();
+                else rep.fail("C01.relayout.include." + k.id + "." + cmp.cls,
+                              "seed=" + std::to_string(env.seed) + " case=" + std::to_string(c) + " a=include_layout b=one_piece " + cmp.detail + filesHex() + " onepiece_hex=" + hexTrunc(k.ref, 900));
+            }
+            fs::remove_all(dir, ec);
+        }
+    }
+}
+
 void prop01(Reporter& rep, Env& env) {
     // fixed pairs of layouts of the same deck (always run): a quoted string holding the OTHER quote character,
     // followed on the same line by a comment / by text behind the terminating slash / by further items
@@ -1652,13 +1990,19 @@ void prop01(Reporter& rep, Env& env) {
             else rep.ok();
         }
     }
+    // the last token of a record is a valueless repeat count: run of defaults over the scalar/ALL boundary, over the record end
+    tailStarProbe(rep, env);
+    rep.count("tailstar_ms", (long) ((nowSec() - env.t0) * 1000));
+    // layouts over INCLUDE files in which a file is read more than once / recursively
+    includeProbe(rep, env);
+    rep.count("include_ms", (long) ((nowSec() - env.t0) * 1000));
     // (a)+(b) generated decks
     const int nGen = env.thorough ? 12000 : 1200;
     for (int c = 0; c < nGen; ++c) {
         if (!env.timeLeft(0.6)) { rep.count("generated.stopped_by_budget"); break; }
         vh::Rng rng(caseSeed(env.seed, (uint64_t) c));
         std::string fault;
-        std::vector<Block> blocks = genDeck(rng, rep, rng.range(2, 14), true, fault);
+        std::vector<Block> blocks = genDeck(rng, rep, rng.range(2, 14), true, fault, true);
         RenderCtx rc; std::string text;
         renderBlocks(blocks, text, rc);
         Outcome oa = parseText(text);
